@@ -53,7 +53,109 @@ type c03RowVal struct {
 	m    c03Set
 }
 
+// c03Shape: the VALUES the history works on. Copy-on-write goes through a different code path per
+// container encoding (Thaw/Clone of an array, of a run container with inline or heap-allocated
+// runs, of a bitmap container), and in-place edits only happen for particular values (a bit
+// adjacent to a run, the edge of a run), so the same alphabet is explored over several shapes.
+type c03Shape struct {
+	name             string
+	init, other      []uint64
+	optimize         bool // run-encode the sources before the history starts
+	addV, remV       uint64
+	addN, remN       []uint64
+	impSet, impClr   []uint64
+	fragInit         []vxBit
+	fSet, fClr0      vxBit
+	fClr1            vxBit
+	fImport          []vxBit
+	literalRow       []uint64
+	mutRowBit        uint64
+	snapshotFragment bool
+}
+
+func c03Range(lo, hi uint64) []uint64 {
+	var out []uint64
+	for v := lo; v <= hi; v++ {
+		out = append(out, v)
+	}
+	return out
+}
+
+func c03Cat(parts ...[]uint64) []uint64 {
+	var out []uint64
+	for _, p := range parts {
+		out = append(out, p...)
+	}
+	return out
+}
+
+func c03Bits(row uint64, cols []uint64) []vxBit {
+	var out []vxBit
+	for _, c := range cols {
+		out = append(out, vxBit{row, c})
+	}
+	return out
+}
+
+var c03Shapes = map[string]*c03Shape{
+	// tiny array containers
+	"array": {
+		name: "array", init: []uint64{1, 2, 65536 + 2, 65536 + 3},
+		// the second operand shares containers 0 and 1 with the source and has one container (key 3)
+		// of its own, so that binary operations take their "only in the argument" branches too
+		other: []uint64{1, 65536 + 2, 65536 + 9, 3*65536 + 7},
+		addV:  7, remV: 1, addN: []uint64{65536 + 2, 65536 + 40, 3 * 65536}, remN: []uint64{2, 65536 + 3},
+		impSet: []uint64{2, 8, 65536 + 8}, impClr: []uint64{1, 65536 + 2},
+		fragInit: []vxBit{{0, 1}, {0, 65536}, {1, 1}}, fSet: vxBit{0, 3}, fClr0: vxBit{0, 1}, fClr1: vxBit{1, 1},
+		fImport: []vxBit{{0, 2}, {1, 65536}}, literalRow: []uint64{5, 65537}, mutRowBit: 77,
+	},
+	// run containers with three runs each (more than the two that fit the inline stash): the
+	// mutations touch a value adjacent to a run / the edge of a run, which edits the run slice in place
+	"runs": {
+		name: "runs", optimize: true,
+		init:  c03Cat(c03Range(10, 19), c03Range(30, 39), c03Range(50, 59), c03Range(65536+10, 65536+19), c03Range(65536+30, 65536+39), c03Range(65536+50, 65536+59)),
+		other: c03Cat(c03Range(15, 24), c03Range(30, 34), c03Range(70, 79), c03Range(65536+30, 65536+39), c03Range(3*65536+1, 3*65536+9), c03Range(3*65536+20, 3*65536+29), c03Range(3*65536+40, 3*65536+49)),
+		addV:  20, remV: 30, addN: []uint64{40, 65536 + 20, 3 * 65536}, remN: []uint64{19, 65536 + 30},
+		impSet: []uint64{20, 49, 65536 + 40}, impClr: []uint64{10, 65536 + 39},
+		fragInit: append(c03Bits(0, c03Cat(c03Range(10, 19), c03Range(30, 39), c03Range(50, 59), []uint64{65536})), c03Bits(1, c03Cat(c03Range(10, 19), c03Range(30, 39), c03Range(50, 59)))...),
+		fSet:     vxBit{0, 20}, fClr0: vxBit{0, 30}, fClr1: vxBit{1, 30},
+		fImport: []vxBit{{0, 40}, {1, 65536}}, literalRow: c03Cat(c03Range(5, 9), c03Range(25, 29), c03Range(65537, 65540)), mutRowBit: 40,
+		snapshotFragment: true,
+	},
+	// a bitmap container (more than 4096 values, every other value so that it stays a bitmap)
+	"bitmap": {
+		name: "bitmap",
+		init: func() []uint64 {
+			var v []uint64
+			for i := uint64(0); i < 5000; i++ {
+				v = append(v, 2*i)
+			}
+			return append(v, 65536+2, 65536+3)
+		}(),
+		other: func() []uint64 {
+			var v []uint64
+			for i := uint64(0); i < 4200; i++ {
+				v = append(v, 3*i)
+			}
+			return append(v, 65536+2, 65536+9, 3*65536+7)
+		}(),
+		addV: 7, remV: 2, addN: []uint64{9, 65536 + 40, 3 * 65536}, remN: []uint64{4, 65536 + 3},
+		impSet: []uint64{3, 11, 65536 + 8}, impClr: []uint64{6, 65536 + 2},
+		fragInit: append(c03Bits(0, func() []uint64 {
+			var v []uint64
+			for i := uint64(0); i < 4500; i++ {
+				v = append(v, 2*i)
+			}
+			return append(v, 65536)
+		}()), vxBit{1, 2}),
+		fSet: vxBit{0, 3}, fClr0: vxBit{0, 2}, fClr1: vxBit{1, 2},
+		fImport: []vxBit{{0, 5}, {1, 65536}}, literalRow: []uint64{5, 65537}, mutRowBit: 77,
+		snapshotFragment: true,
+	},
+}
+
 type c03Inst struct {
+	sh      *c03Shape
 	kind    string
 	src     *roaring.Bitmap
 	srcM    c03Set
@@ -66,10 +168,27 @@ type c03Inst struct {
 	rows    []c03RowVal
 }
 
-var c03Init = []uint64{1, 2, 65536 + 2, 65536 + 3}
-// the second operand shares containers 0 and 1 with the source and has one container (key 3) of
-// its own, so that binary operations take their "only in the argument" branches too
-var c03Other = []uint64{1, 65536 + 2, 65536 + 9, 3*65536 + 7}
+// c03Show renders a value set; large sets as count + order-independent digest + the values outside
+// the dense region, so that a difference is still visible in the report.
+func c03Show(vals []uint64) string {
+	if len(vals) <= 80 {
+		return vx.SortedU64(vals)
+	}
+	var h, x uint64
+	var odd []uint64
+	for _, v := range vals {
+		h += (v + 1) * 0x9E3779B97F4A7C15
+		x ^= (v + 0x1234567) * 0xC2B2AE3D27D4EB4F
+		if v >= 10000 || (v%2 != 0 && v%3 != 0) {
+			odd = append(odd, v)
+		}
+	}
+	sort.Slice(odd, func(i, j int) bool { return odd[i] < odd[j] })
+	if len(odd) > 40 {
+		odd = odd[:40]
+	}
+	return fmt.Sprintf("<%d-values,digest=%x.%x,notable=%s>", len(vals), h, x, strings.ReplaceAll(vx.SortedU64(odd), " ", ","))
+}
 
 func c03Encode(vals []uint64) []byte {
 	bm := roaring.NewBitmap(vals...)
@@ -80,33 +199,51 @@ func c03Encode(vals []uint64) []byte {
 	return buf.Bytes()
 }
 
-func c03New(kind string) vx.Instance {
-	in := &c03Inst{kind: kind, srcM: c03Set{}, othM: c03Set{}, fM: map[vxBit]bool{}}
-	for _, v := range c03Init {
+func c03New(kind string, sh *c03Shape) vx.Instance {
+	in := &c03Inst{sh: sh, kind: kind, srcM: c03Set{}, othM: c03Set{}, fM: map[vxBit]bool{}}
+	for _, v := range sh.init {
 		in.srcM[v] = true
 	}
-	for _, v := range c03Other {
+	for _, v := range sh.other {
 		in.othM[v] = true
 	}
 	switch kind {
 	case "slice":
-		in.src = roaring.NewBitmap(c03Init...)
+		in.src = roaring.NewBitmap(sh.init...)
 	case "btree":
-		in.src = roaring.NewBTreeBitmap(c03Init...)
+		in.src = roaring.NewBTreeBitmap(sh.init...)
 	case "mapped":
-		in.buf = c03Encode(c03Init)
+		in.buf = c03Encode(sh.init) // WriteTo run-encodes where that is smaller
 		in.src = roaring.NewFileBitmap()
 		if err := in.src.UnmarshalBinary(in.buf); err != nil {
 			panic(err)
 		}
 	}
-	in.oth = roaring.NewBitmap(c03Other...)
+	in.oth = roaring.NewBitmap(sh.other...)
+	if sh.optimize {
+		in.src.Optimize()
+		in.oth.Optimize()
+	}
 	in.f = vxOpenFragment(vxKindSet, 0, 0, "", false)
-	for _, b := range []vxBit{{0, 1}, {0, 65536}, {1, 1}} {
-		if _, err := in.f.setBit(b.row, b.col); err != nil {
+	if len(sh.fragInit) > 8 {
+		if err := in.f.importRoaring(context.Background(), vxPilosaRoaring(sh.fragInit), false); err != nil {
 			panic(err)
 		}
+	} else {
+		for _, b := range sh.fragInit {
+			if _, err := in.f.setBit(b.row, b.col); err != nil {
+				panic(err)
+			}
+		}
+	}
+	for _, b := range sh.fragInit {
 		in.fM[b] = true
+	}
+	if sh.snapshotFragment {
+		// the snapshot rewrites storage in its optimized (run / bitmap) encoding and re-maps it
+		if err := in.f.Snapshot(); err != nil {
+			panic(err)
+		}
 	}
 	return in
 }
@@ -226,31 +363,38 @@ func (in *c03Inst) Apply(op vx.Op) (got, want string) {
 			d := in.derived[len(in.derived)-1]
 			b, m = d.b, d.m
 		}
+		sh := in.sh
 		switch op.S {
 		case "add":
-			b.Add(7)
-			m[7] = true
+			b.Add(sh.addV)
+			m[sh.addV] = true
 		case "remove":
-			b.Remove(1)
-			delete(m, 1)
+			b.Remove(sh.remV)
+			delete(m, sh.remV)
 		case "addN":
-			b.AddN(65536+2, 65536+40, 3*65536)
-			m[65536+2], m[65536+40], m[3*65536] = true, true, true
+			b.AddN(append([]uint64(nil), sh.addN...)...)
+			for _, v := range sh.addN {
+				m[v] = true
+			}
 		case "removeN":
-			b.RemoveN(2, 65536+3)
-			delete(m, 2)
-			delete(m, 65536+3)
+			b.RemoveN(append([]uint64(nil), sh.remN...)...)
+			for _, v := range sh.remN {
+				delete(m, v)
+			}
 		case "importSet":
-			if _, _, err := b.ImportRoaringBits(c03Encode([]uint64{2, 8, 65536 + 8}), false, false, 0); err != nil {
+			if _, _, err := b.ImportRoaringBits(c03Encode(sh.impSet), false, false, 0); err != nil {
 				return "import error " + err.Error(), ""
 			}
-			m[2], m[8], m[65536+8] = true, true, true
+			for _, v := range sh.impSet {
+				m[v] = true
+			}
 		case "importClear":
-			if _, _, err := b.ImportRoaringBits(c03Encode([]uint64{1, 65536 + 2}), true, false, 0); err != nil {
+			if _, _, err := b.ImportRoaringBits(c03Encode(sh.impClr), true, false, 0); err != nil {
 				return "import error " + err.Error(), ""
 			}
-			delete(m, 1)
-			delete(m, 65536+2)
+			for _, v := range sh.impClr {
+				delete(m, v)
+			}
 		case "optimize":
 			b.Optimize()
 		default:
@@ -294,19 +438,22 @@ func (in *c03Inst) Apply(op vx.Op) (got, want string) {
 			in.rows = in.rows[1:]
 		}
 	case "fSet":
-		b := vxBit{uint64(op.Args[0]), uint64(op.Args[1])}
+		b := in.sh.fSet
 		if _, err := in.f.setBit(b.row, b.col); err != nil {
 			return err.Error(), ""
 		}
 		in.fM[b] = true
 	case "fClear":
-		b := vxBit{uint64(op.Args[0]), uint64(op.Args[1])}
+		b := in.sh.fClr0
+		if op.Args[0] == 1 {
+			b = in.sh.fClr1
+		}
 		if _, err := in.f.clearBit(b.row, b.col); err != nil {
 			return err.Error(), ""
 		}
 		delete(in.fM, b)
 	case "fImport":
-		bits := []vxBit{{0, 2}, {1, 65536}}
+		bits := in.sh.fImport
 		if err := in.f.importRoaring(context.Background(), vxPilosaRoaring(bits), false); err != nil {
 			return err.Error(), ""
 		}
@@ -315,8 +462,11 @@ func (in *c03Inst) Apply(op vx.Op) (got, want string) {
 		}
 	case "fSetRow":
 		// store one of the derived rows (or a literal row) into row 1
-		src := NewRow(5, 65537)
-		sm := c03Set{5: true, 65537: true}
+		src := NewRow(in.sh.literalRow...)
+		sm := c03Set{}
+		for _, v := range in.sh.literalRow {
+			sm[v] = true
+		}
 		if len(in.rows) > 0 {
 			src, sm = in.rows[len(in.rows)-1].r, in.rows[len(in.rows)-1].m
 		}
@@ -349,8 +499,8 @@ func (in *c03Inst) Apply(op vx.Op) (got, want string) {
 			return "", ""
 		}
 		rv := in.rows[len(in.rows)-1]
-		rv.r.SetBit(77)
-		rv.m[77] = true
+		rv.r.SetBit(in.sh.mutRowBit)
+		rv.m[in.sh.mutRowBit] = true
 	default:
 		panic("unknown op " + op.Name)
 	}
@@ -359,9 +509,32 @@ func (in *c03Inst) Apply(op vx.Op) (got, want string) {
 
 func (in *c03Inst) observe() (got, want string) {
 	var g, w strings.Builder
+	keys := func(m c03Set) []uint64 {
+		a := make([]uint64, 0, len(m))
+		for k := range m {
+			a = append(a, k)
+		}
+		return a
+	}
 	put := func(name string, b *roaring.Bitmap, m c03Set) {
-		fmt.Fprintf(&g, "%s={%s}#%d ", name, vx.SortedU64(b.Slice()), b.Count())
-		fmt.Fprintf(&w, "%s={%s}#%d ", name, m.String(), len(m))
+		fmt.Fprintf(&g, "%s={%s}#%d ", name, c03Show(b.Slice()), b.Count())
+		fmt.Fprintf(&w, "%s={%s}#%d ", name, c03Show(keys(m)), len(m))
+	}
+	fragRows := func(fm map[vxBit]bool) string {
+		byRow := map[uint64][]uint64{}
+		for b := range fm {
+			byRow[b.row] = append(byRow[b.row], b.col)
+		}
+		var rs []uint64
+		for r := range byRow {
+			rs = append(rs, r)
+		}
+		sort.Slice(rs, func(i, j int) bool { return rs[i] < rs[j] })
+		var sb strings.Builder
+		for _, r := range rs {
+			fmt.Fprintf(&sb, "%d:[%s];", r, c03Show(byRow[r]))
+		}
+		return sb.String()
 	}
 	put("src", in.src, in.srcM)
 	put("oth", in.oth, in.othM)
@@ -369,13 +542,13 @@ func (in *c03Inst) observe() (got, want string) {
 		put(fmt.Sprintf("d%d:%s", i, d.name), d.b, d.m)
 	}
 	for i, rv := range in.rows {
-		fmt.Fprintf(&g, "r%d:%s={%s}#%d ", i, rv.name, vx.SortedU64(rv.r.Columns()), rv.r.Count())
-		fmt.Fprintf(&w, "r%d:%s={%s}#%d ", i, rv.name, rv.m.String(), len(rv.m))
+		fmt.Fprintf(&g, "r%d:%s={%s}#%d ", i, rv.name, c03Show(rv.r.Columns()), rv.r.Count())
+		fmt.Fprintf(&w, "r%d:%s={%s}#%d ", i, rv.name, c03Show(keys(rv.m)), len(rv.m))
 	}
 	fm := map[vxBit]bool{}
 	_ = in.f.forEachBit(func(r, c uint64) error { fm[vxBit{r, c}] = true; return nil })
-	fmt.Fprintf(&g, "frag={%s}", vxModelBits(fm))
-	fmt.Fprintf(&w, "frag={%s}", vxModelBits(in.fM))
+	fmt.Fprintf(&g, "frag={%s}", fragRows(fm))
+	fmt.Fprintf(&w, "frag={%s}", fragRows(in.fM))
 	return g.String(), w.String()
 }
 
@@ -438,14 +611,36 @@ func c03Key(kind string) func(p []vx.Op, got, want string) string {
 func TestVerif_C03(t *testing.T) {
 	c := vx.NewCheck("C03", "model_checking",
 		"all histories up to the tier's depth over: derive a value (Clone/Freeze/Union/Intersect/Difference/Xor/OffsetRange/Shift/Flip, fragment.row, row union), mutate a source (bitmap add/remove/batch/import/optimize, remap mapped storage + scribble the old buffer, fragment set/clear/import/setRow/snapshot/close+reopen), mutate a derived value; after every step ALL live values are compared with their value snapshots; source kinds heap / B-tree / mapped; distinct = distinct op sequences explored (no state merging)")
+	type cfg struct {
+		kind, shape string
+		depth       int
+		budget      float64
+	}
+	var cfgs []cfg
 	for _, kind := range []string{"slice", "btree", "mapped"} {
-		kind := kind
-		h := &vx.Harness{Alphabet: c03Alphabet(kind), New: func() vx.Instance { return c03New(kind) }, Key: c03Key(kind), MultiProcess: true}
-		c.WithBudget(float64(c.Pick(35, 500)), func() {
-			c.RunDFS(h, c.Pick(3, 4))
+		cfgs = append(cfgs, cfg{kind, "array", c.Pick(3, 4), float64(c.Pick(35, 500))})
+	}
+	// the other container encodings: depth 3 in both tiers (quick: the bitmap shape on the B-tree
+	// source only, which is what fragments use)
+	for _, kind := range []string{"slice", "btree", "mapped"} {
+		cfgs = append(cfgs, cfg{kind, "runs", 3, float64(c.Pick(35, 300))})
+		if c.Thorough() || kind == "btree" {
+			cfgs = append(cfgs, cfg{kind, "bitmap", 3, float64(c.Pick(45, 300))})
+		}
+	}
+	for _, cf := range cfgs {
+		cf := cf
+		sh := c03Shapes[cf.shape]
+		label := cf.kind
+		if cf.shape != "array" {
+			label = cf.kind + "/" + cf.shape
+		}
+		h := &vx.Harness{Alphabet: c03Alphabet(cf.kind), New: func() vx.Instance { return c03New(cf.kind, sh) }, Key: c03Key(label), MultiProcess: true}
+		c.WithBudget(cf.budget, func() {
+			c.RunDFS(h, cf.depth)
 		})
 		c.ConfirmViolations(h)
-		fmt.Printf("INFO C03 kind=%s alphabet=%d evals=%d\n", kind, len(h.Alphabet), c.Evaluations)
+		fmt.Printf("INFO C03 kind=%s shape=%s alphabet=%d evals=%d\n", cf.kind, cf.shape, len(h.Alphabet), c.Evaluations)
 	}
 	c.AddStates(c.Evaluations)
 	c.AddValidated(c.Evaluations)
